@@ -297,7 +297,12 @@ pub fn run(rep: &mut Report, thorough: bool) {
             (Ip::V4([169, 254, 1, 1]), Ip::parse("fe80::1")),
             (Ip::V4([10, 0, 0, 1]), Ip::parse("2001:db8::1")),
         ];
-        let nf = 256 + 256 + labels.len() as u64 + v4flags.len() as u64 + tags.len() as u64 + srcs.len() as u64;
+        let nf_old = 256 + 256 + labels.len() as u64 + v4flags.len() as u64 + tags.len() as u64 + srcs.len() as u64;
+        // round 21/22: the same value in the UDP checksum field on both versions (0 = "no checksum"
+        // over IPv4; the responder verifies no checksum, so the field may not decide the answer on
+        // one IP version only), each also with the UDP length field left exact
+        let sums: Vec<u32> = crate::deviate::EDGE16.iter().cloned().collect();
+        let nf = nf_old + sums.len() as u64;
         let total = bases.len() as u64 * nf;
         let f4 = flow4(40000, 80);
         let f6 = flow6(40000, 80);
@@ -305,6 +310,12 @@ pub fn run(rep: &mut Report, thorough: bool) {
             let mut a = f4.udp(&bases[bi].bytes);
             let mut b = f6.udp(&bases[bi].bytes);
             let what;
+            if k >= nf_old {
+                let c = sums[(k - nf_old) as usize] as u16;
+                a[40..42].copy_from_slice(&c.to_be_bytes());
+                b[60..62].copy_from_slice(&c.to_be_bytes());
+                return (a, b, format!("UDP checksum field {:#06x}", c));
+            }
             if k < 256 {
                 let tc = k as u8;
                 a[15] = tc;
@@ -382,7 +393,7 @@ pub fn run(rep: &mut Report, thorough: bool) {
             },
             &mut rep.sink,
         );
-        rep.stage("version-differential-envelope", "5 payloads x {TOS = traffic class: 256 values, TTL = hop limit: 256 values, IPv4 id / IPv6 flow label: 24 values, IPv4 DF / reserved flag bits: 4 values, 802.1Q / 802.1ad tags: 4, source address classes (multicast, loopback, unspecified, link-local, the responder's own): 5}, the same marking on both IP versions: same canonical answer", total, t0);
+        rep.stage("version-differential-envelope", "5 payloads x {TOS = traffic class: 256 values, TTL = hop limit: 256 values, IPv4 id / IPv6 flow label: 24 values, IPv4 DF / reserved flag bits: 4 values, 802.1Q / 802.1ad tags: 4, source address classes (multicast, loopback, unspecified, link-local, the responder's own): 5, UDP checksum field: 22 edge values incl. 0}, the same marking on both IP versions: same canonical answer", total, t0);
     }
     // the IPv4 header's own length: the same payload behind IPv4 options (IHL 6..15: NOP padding, a
     // timestamp option, a router-alert option) as datagram and as first data segment: the answer
